@@ -33,7 +33,8 @@ RULE = (
 ASSUMPTIONS = [
     "an empty reply over a stream is end-of-stream (the device closes its sending side); resets are outside the alphabet",
     "get_schedules (own response class) is outside the statement's two response families and is only checked not to hang",
-    "a generic operation may raise RuntimeError instead of returning an unsuccessful response when a reply is empty",
+    "a generic operation may raise RuntimeError instead of returning an unsuccessful response when a reply is empty, or when the login reply is too short to carry a session id",
+    "'raises RuntimeError' is satisfied by a subclass of RuntimeError",
 ]
 
 STATE_QUERIES = {"get_state": "SwitcherStateResponse", "get_shutter_state": "SwitcherShutterStateResponse", "get_breeze_state": "SwitcherThermostatStateResponse"}
@@ -196,13 +197,13 @@ class Runner:
         kind = w.kind
         q = "get_state" if kind == 1 else "get_breeze_state"
         out, writes, _ = w.run_op(q)
-        if out[0] != "exc" or type(out[1]) is not RuntimeError:
+        if out[0] != "exc" or not isinstance(out[1], RuntimeError):
             res.violation(f"state-query-after-eof:{type(out[1]).__name__ if out[0] == 'exc' else out[0]}", dict(case, follow_up=q),
                           f"{case['op']} with faults {case['faults']} ended the stream; a following {q} on the same object -> {out[0]} {out[1]!r}, expected RuntimeError",
                           "RuntimeError", repr(out[1]))
         g = "control_on" if kind == 1 else "set_position"
         out, writes, _ = w.run_op(g)
-        okg = (out[0] == "exc" and type(out[1]) is RuntimeError) or (out[0] == "ok" and not out[1].successful)
+        okg = (out[0] == "exc" and isinstance(out[1], RuntimeError)) or (out[0] == "ok" and not out[1].successful)
         if not okg:
             res.violation(f"generic-after-eof:{type(out[1]).__name__ if out[0] == 'exc' else out[0]}", dict(case, follow_up=g),
                           f"{case['op']} with faults {case['faults']} ended the stream; a following {g} on the same object -> {out[0]} {out[1]!r}, expected RuntimeError or an unsuccessful response")
@@ -253,7 +254,7 @@ def judge(case, out, writes, delivered, res):
     type2 = OPS[op][0] == 2
     if login_empty and (op in STATE_QUERIES or type2):
         ok = True
-        if out[0] != "exc" or type(out[1]) is not RuntimeError:
+        if out[0] != "exc" or not isinstance(out[1], RuntimeError):
             res.violation(f"empty-login-not-runtimeerror:{op}", case, f"{desc}: expected RuntimeError, got {out[0]} {out[1]!r}", "RuntimeError", repr(out[1]))
             ok = False
         if len(writes) != 1:
@@ -267,7 +268,7 @@ def judge(case, out, writes, delivered, res):
                 return False
             res.outcome((op, "parsed"))
             return True
-        if type(out[1]) is RuntimeError:
+        if isinstance(out[1], RuntimeError):
             res.outcome((op, "RuntimeError"))
             return True
         res.violation(f"state-query-raises:{type(out[1]).__name__}", case, f"{desc}: raised {type(out[1]).__name__}: {out[1]}", "response or RuntimeError", repr(out[1]))
@@ -280,7 +281,8 @@ def judge(case, out, writes, delivered, res):
         e = out[1]
         last = delivered[nsteps - 1] if 0 < nsteps <= len(delivered) else b""
         embedded_state = op.startswith("breeze_") and nsteps == 2 and expected_shape(op)[1] == "get_state2"  # the thermostat state read inside control
-        if type(e) is RuntimeError and (last is None or embedded_state or any(d is None for d in delivered[:nsteps])):
+        no_session = nsteps == 1 and (delivered[0] is None or len(delivered[0]) < 12)  # nothing to bind a command to
+        if isinstance(e, RuntimeError) and (last is None or embedded_state or no_session or any(d is None for d in delivered[:nsteps])):
             res.outcome((op, "RuntimeError"))
             return True
         res.violation(f"generic-raises:{type(e).__name__}:{op}", case, f"{desc}: raised {type(e).__name__}: {e} after {nsteps} frames", "response", repr(e))
